@@ -67,6 +67,11 @@ impl Case {
             builder: v["builder"].as_u64().map(|x| x as usize),
         })
     }
+    /// the regex with `\\G` replaced by `(?!)`, when the pattern has a `\\G`
+    pub fn build_nog(&self) -> Option<Regex> {
+        let p = without_continue_g(&self.pattern)?;
+        Case { pattern: p, text: String::new(), fault: None, builder: self.builder }.build()
+    }
     pub fn build(&self) -> Option<Regex> {
         match self.builder {
             None => compile(&self.pattern),
@@ -120,12 +125,16 @@ fn end() -> (Vec<SearchCall>, Vec<RunStats>) {
 pub fn real_history(re: &Regex, text: &str, fault: &Option<IterFault>) -> History {
     let cap = text.chars().count() + 3;
     begin(plan_of(fault));
+    budget::install();
     let mut items = Vec::new();
     let mut after_end = Vec::new();
     let mut ended = false;
     {
         let mut it = re.find_iter(text);
         while items.len() < cap {
+            // a correct next() makes at most two searches (one more after dropping an adjacent
+            // empty match); more than four means the iterator is spinning
+            budget::arm(budget::DEFAULT_INSNS, 4);
             let r = guarded_plain(|| it.next());
             match r {
                 Outcome::Ok(None) => {
@@ -138,6 +147,7 @@ pub fn real_history(re: &Regex, text: &str, fault: &Option<IterFault>) -> Histor
                     ended = true;
                     // fused after Err: the next calls must all return None
                     for _ in 0..3 {
+                        budget::arm(budget::DEFAULT_INSNS, 4);
                         match guarded_plain(|| it.next()) {
                             Outcome::Ok(None) => after_end.push(None),
                             Outcome::Ok(Some(Ok(m))) => after_end.push(Some(Item::Match(m.start(), m.end()))),
@@ -157,6 +167,7 @@ pub fn real_history(re: &Regex, text: &str, fault: &Option<IterFault>) -> Histor
             }
         }
     }
+    budget::disarm();
     let (calls, runs) = end();
     History { items, calls, runs, after_end, ended }
 }
@@ -178,6 +189,7 @@ pub fn model_history(re: &Regex, text: &str, fault: &Option<IterFault>) -> Histo
             ended = true;
             break;
         }
+        budget::arm(budget::DEFAULT_INSNS, u64::MAX);
         let r = guarded(|| {
             re.verif_find_with_flags(text, pos, if stepped { 2 } else { 0 })
                 .map(|m| m.map(|m| (m.start(), m.end())))
@@ -217,13 +229,86 @@ pub fn model_history(re: &Regex, text: &str, fault: &Option<IterFault>) -> Histo
             }
         }
     }
+    budget::disarm();
     let (calls, runs) = end();
     History { items, calls, runs, after_end: Vec::new(), ended }
+}
+
+/// The same iteration, but *without trusting the skipped-empty flag of the search layer*: at a
+/// position reached by stepping over an empty match `\\G` cannot hold, so there the search is made
+/// with a copy of the regex in which every `\\G` is replaced by the never-matching `(?!)`, through
+/// the plain public `find_from_pos`. Fault-free only (the two regexes need different numbers of
+/// backtracks, so a limit fault would land differently).
+pub fn independent_items(re: &Regex, re_nog: &Regex, text: &str) -> Vec<Item> {
+    let cap = text.chars().count() + 3;
+    budget::install();
+    let mut items = Vec::new();
+    let mut pos = 0usize;
+    let mut stepped = false;
+    let mut prev_end: Option<usize> = None;
+    while items.len() < cap && pos <= text.len() {
+        budget::arm(budget::DEFAULT_INSNS, u64::MAX);
+        let which = if stepped { re_nog } else { re };
+        let r = guarded(|| which.find_from_pos(text, pos).map(|m| m.map(|m| (m.start(), m.end()))));
+        match r {
+            Outcome::Err(e) => {
+                items.push(Item::Err(e));
+                break;
+            }
+            Outcome::Panic(p) => {
+                items.push(Item::Panic(p));
+                break;
+            }
+            Outcome::Ok(None) => break,
+            Outcome::Ok(Some((s, e))) => {
+                if s == e {
+                    pos = match text.get(e..).and_then(|t| t.chars().next()) {
+                        Some(c) => e + c.len_utf8(),
+                        None => e + 1,
+                    };
+                    stepped = true;
+                    if Some(e) == prev_end {
+                        continue;
+                    }
+                } else {
+                    pos = e;
+                    stepped = false;
+                }
+                prev_end = Some(e);
+                items.push(Item::Match(s, e));
+            }
+        }
+    }
+    budget::disarm();
+    items
+}
+
+/// Copy of the pattern with every `\\G` replaced by `(?!)`; None when the pattern has no `\\G`.
+/// (Workload patterns never contain an escaped backslash followed by `G`.)
+pub fn without_continue_g(pattern: &str) -> Option<String> {
+    if pattern.contains("\\G") && !pattern.contains("\\\\G") {
+        Some(pattern.replace("\\G", "(?!)"))
+    } else {
+        None
+    }
 }
 
 /// In-run invariants of the statement that do not need the model.
 pub fn invariants(text: &str, h: &History) -> Option<(&'static str, String)> {
     let chars = text.chars().count();
+    if let Some(Item::Panic(m)) = h.items.last() {
+        if m == budget::SEARCH_PAYLOAD {
+            return Some((
+                "iterator-does-not-terminate",
+                format!("next() call #{} made more than 4 searches without returning (items so far: {:?})", h.items.len(), &h.items[..h.items.len() - 1]),
+            ));
+        }
+    }
+    for a in h.after_end.iter().flatten() {
+        if matches!(a, Item::Panic(m) if m == budget::SEARCH_PAYLOAD) {
+            return Some(("iterator-does-not-terminate", "a next() call after the Err item made more than 4 searches without returning".to_string()));
+        }
+    }
     let n_matches = h.items.iter().filter(|i| matches!(i, Item::Match(..))).count();
     if !h.ended || n_matches > chars + 1 {
         return Some((
@@ -280,6 +365,8 @@ pub struct Stats {
     pub g_refused_after_skip: u64,
     pub builder_cases: u64,
     pub interleaved: u64,
+    pub budget_skipped: u64,
+    pub independent_g_models: u64,
     pub nontrivial: bool,
     pub digest: u64,
 }
@@ -296,7 +383,7 @@ fn probe_history(text: &str, h: &History, st: &mut Stats) {
         if let Item::Match(s, e) = it {
             if s == e {
                 st.empty_skipped += 1;
-                if *e < text.len() && text[*e..].chars().next().map_or(false, |c| c.len_utf8() > 1) {
+                if text.get(*e..).and_then(|t| t.chars().next()).map_or(false, |c| c.len_utf8() > 1) {
                     st.multibyte_step += 1;
                 }
             }
@@ -324,24 +411,34 @@ pub struct Found {
 
 /// Check one (regex, text, fault): real history vs invariants vs model, and (under a fault) the
 /// narrow expectation against the fault-free history.
-pub fn check_one(re: &Regex, text: &str, fault: &Option<IterFault>, ff: Option<&History>, st: &mut Stats) -> Option<Found> {
+pub fn check_one(re: &Regex, re_nog: Option<&Regex>, text: &str, fault: &Option<IterFault>, ff: Option<&History>, st: &mut Stats) -> Option<Found> {
     let real = real_history(re, text, fault);
-    probe_history(text, &real, st);
-    if let Some(Item::Panic(_)) = real.items.last() {
-        // a panicking search: with an injected fault that is a violation of the fault clause,
-        // fault-free it is C05's business
-        if fault.is_some() {
-            if let Some(ff) = ff {
-                if !matches!(ff.items.last(), Some(Item::Panic(_))) {
-                    return Some(Found { class: "fault-panic".into(), detail: format!("injected {:?} made find_iter panic: {:?}", fault, real.items.last()) });
-                }
-            }
+    if let Some(Item::Panic(msg)) = real.items.last() {
+        st.histories += 1;
+        if msg == budget::INSN_PAYLOAD {
+            // a single search exceeded the instruction budget: too heavy for this workload (whether
+            // it terminates at all is C07's business, decided there by the progress monitor)
+            st.budget_skipped += 1;
+            return None;
         }
-        return None;
+        if msg != budget::SEARCH_PAYLOAD {
+            // The iterator panicked. If the statement's own iteration over the same search layer
+            // panics too, the panic is the search's (C05's business); otherwise it is the
+            // iterator's, e.g. a search started inside a multi-byte character.
+            let model = model_history(re, text, fault);
+            return match model.items.last() {
+                Some(Item::Panic(_)) => None,
+                _ => Some(Found {
+                    class: if fault.is_some() { "fault-panic".into() } else { "iterator-panic".into() },
+                    detail: format!("find_iter panicked ({}) after yielding {:?}; the statement's iteration over the same search layer{} yields {:?} without panicking", msg, &real.items[..real.items.len() - 1], if fault.is_some() { format!(" under fault {:?}", fault) } else { String::new() }, model.items),
+                }),
+            };
+        }
     }
     if let Some((c, d)) = invariants(text, &real) {
         return Some(Found { class: c.into(), detail: d });
     }
+    probe_history(text, &real, st);
     let model = model_history(re, text, fault);
     if real.items != model.items {
         return Some(Found {
@@ -354,6 +451,18 @@ pub fn check_one(re: &Regex, text: &str, fault: &Option<IterFault>, ff: Option<&
             class: "search-calls-differ-from-model".into(),
             detail: format!("find_iter searched {:?} ; the statement's iteration searches {:?}", short_calls(&real.calls), short_calls(&model.calls)),
         });
+    }
+    if let (None, Some(nog)) = (fault, re_nog) {
+        if !matches!(real.items.last(), Some(Item::Err(_))) {
+            let ind = independent_items(re, nog, text);
+            st.independent_g_models += 1;
+            if !matches!(ind.last(), Some(Item::Err(_) | Item::Panic(_))) && ind != real.items {
+                return Some(Found {
+                    class: "continue-anchor-after-skipped-empty-match".into(),
+                    detail: format!("find_iter yielded {:?} ; iterating with \\G replaced by (?!) at positions reached by stepping over an empty match (where \\G cannot hold) yields {:?}", real.items, ind),
+                });
+            }
+        }
     }
     if let (Some(f), Some(ff)) = (fault, ff) {
         st.faults_configured += 1;
@@ -403,11 +512,12 @@ fn short_calls(c: &[SearchCall]) -> Vec<(usize, u32)> {
 /// Full check of a case: fault-free first, then the given fault.
 pub fn check_case(case: &Case, st: &mut Stats) -> Option<Found> {
     let re = case.build()?;
+    let nog = case.build_nog();
     let ff = real_history(&re, &case.text, &None);
     if case.fault.is_none() {
-        return check_one(&re, &case.text, &None, None, st);
+        return check_one(&re, nog.as_ref(), &case.text, &None, None, st);
     }
-    check_one(&re, &case.text, &case.fault, Some(&ff), st)
+    check_one(&re, nog.as_ref(), &case.text, &case.fault, Some(&ff), st)
 }
 
 pub fn replay(case: &Value) -> Option<(String, String)> {
@@ -477,6 +587,7 @@ fn interleaved(re: &Regex, texts: &[String], order: &[usize]) -> Option<Found> {
         if done[k] {
             continue;
         }
+        budget::arm(budget::DEFAULT_INSNS, 4);
         match guarded_plain(|| its[k].next()) {
             Outcome::Ok(None) => done[k] = true,
             Outcome::Ok(Some(Ok(m))) => got[k].push(Item::Match(m.start(), m.end())),
@@ -553,6 +664,7 @@ fn job(seed: u64, i: u64) -> (JobOut, Option<Violation>) {
         let builder = if rng.chance(1, 10) { Some(*rng.pick(&[0usize, 1, 2, 3, 5, 10])) } else { None };
         let mut case = Case { pattern: pattern.clone(), text: String::new(), fault: None, builder };
         let Some(re) = case.build() else { continue };
+        let nog = case.build_nog();
         if builder.is_some() {
             out.st.builder_cases += 1;
         }
@@ -561,7 +673,7 @@ fn job(seed: u64, i: u64) -> (JobOut, Option<Violation>) {
             case.fault = None;
             // fault-free
             let ff = real_history(&re, &case.text, &None);
-            let mut found = check_one(&re, &case.text, &None, None, &mut out.st);
+            let mut found = check_one(&re, nog.as_ref(), &case.text, &None, None, &mut out.st);
             let nontrivial_ff = ff.items.len() >= 2 || ff.items.iter().any(|it| matches!(it, Item::Match(s, e) if s == e));
             let mut fired_any = false;
             // faults: search #j in {first, last, random}, k/d around that search's own thresholds
@@ -583,7 +695,7 @@ fn job(seed: u64, i: u64) -> (JobOut, Option<Violation>) {
                     for (kind, val) in fs {
                         case.fault = Some(IterFault { j: j as u64, kind: kind.to_string(), val });
                         let before = out.st.faults_fired;
-                        found = check_one(&re, &case.text, &case.fault, Some(&ff), &mut out.st);
+                        found = check_one(&re, nog.as_ref(), &case.text, &case.fault, Some(&ff), &mut out.st);
                         if out.st.faults_fired > before {
                             fired_any = true;
                         }
@@ -645,6 +757,8 @@ fn add(a: &mut Stats, b: &Stats) {
     a.g_refused_after_skip += b.g_refused_after_skip;
     a.builder_cases += b.builder_cases;
     a.interleaved += b.interleaved;
+    a.budget_skipped += b.budget_skipped;
+    a.independent_g_models += b.independent_g_models;
     a.digest ^= b.digest.rotate_left(7);
 }
 
@@ -743,6 +857,8 @@ pub fn run(opts: &Opts) -> i32 {
             "error_at_middle_search": st.err_middle,
             "error_at_last_search": st.err_last,
             "interleaved_iterator_scenarios": st.interleaved,
+            "histories_skipped_over_instruction_budget": st.budget_skipped,
+            "histories_also_checked_against_flag_independent_G_model": st.independent_g_models,
         }));
         extra.insert("runs_per_hour".into(), json!(((st.histories as f64) / wall.max(1e-9) * 3600.0) as u64));
         extra.insert("seeds".into(), json!(format!("derive({}, 0..{})", seed, results.len())));
